@@ -1,9 +1,22 @@
 use crate::harness::PropFn;
 
 pub mod c01;
+pub mod c03;
 pub mod c09;
+pub mod c11;
+pub mod c12;
+pub mod clonefam;
 
-pub const REGISTRY: &[(&str, PropFn)] = &[("C01", c01::run), ("C09", c09::run)];
+pub const REGISTRY: &[(&str, PropFn)] = &[
+    ("C01", c01::run),
+    ("C02", clonefam::run_c02),
+    ("C03", c03::run),
+    ("C06", clonefam::run_c06),
+    ("C09", c09::run),
+    ("C11", c11::run),
+    ("C12", c12::run),
+    ("C13", clonefam::run_c13),
+];
 
 pub fn lookup(name: &str) -> Option<PropFn> {
     REGISTRY.iter().find(|(n, _)| *n == name).map(|(_, f)| *f)
